@@ -19,7 +19,8 @@ Proof. unfold sync_link, exec_link. destruct (plan_link LSkip s d); destruct d; 
 
 Lemma follow_result s d c : l_cwd s = RFile c -> d <> DDir -> sync_link LFollow s d = DFile c.
 Proof.
-  intros Hc Hd. unfold sync_link, exec_link, plan_link. destruct d as [|t|c'|]; try congruence; cbn; rewrite ?Hc; reflexivity.
+  intros Hc Hd. unfold sync_link, exec_link, plan_link. destruct d as [|t|c'|]; try congruence; cbn; rewrite ?Hc; try reflexivity.
+  destruct (N.eqb_spec c' c); [subst; reflexivity | cbn; rewrite ?Hc; reflexivity].
 Qed.
 
 (* after any number of re-syncs, with the link's target changing arbitrarily in between, the destination entry
@@ -40,14 +41,15 @@ Proof.
   unfold wrote_through, exec_link, plan_link. destruct d as [|t|c|]; cbn.
   - destruct m; cbn; try reflexivity. destruct (l_cwd s); reflexivity.
   - destruct m; cbn; try (destruct (N.eqb t (l_target s)); reflexivity). destruct (l_cwd s); reflexivity.
-  - destruct m; cbn; try reflexivity. destruct (l_cwd s); reflexivity.
+  - destruct m; cbn; try reflexivity. destruct (l_cwd s) as [| |c']; try reflexivity. destruct (N.eqb c c'); reflexivity.
   - destruct m; cbn; try reflexivity. destruct (l_cwd s); reflexivity.
 Qed.
 
 (* ---------- events of symlink entries ---------- *)
 Ltac link_cases m s d :=
   unfold link_event, sync_link, exec_link, plan_link, update_link, handle_symlink, produced;
-  destruct m, d as [|t|c|]; cbn; try (destruct (N.eqb t (l_target s))); cbn; destruct (l_cwd s) eqn:?; cbn.
+  destruct m, d as [|t|c|]; cbn; try (destruct (N.eqb t (l_target s))); cbn; destruct (l_cwd s) as [| |c'] eqn:?; cbn;
+  try (destruct (N.eqb c c')); cbn.
 
 Theorem create_event_true m s d : link_event m s d = EvCreate -> d = DAbsent /\ sync_link m s d <> DAbsent.
 Proof. link_cases m s d; intro H; try discriminate H; split; try reflexivity; discriminate. Qed.
@@ -82,3 +84,13 @@ Theorem file_entry_result m c d : d <> DDir -> fst (sync_any true m (SAFile c) d
 Proof. destruct d; cbn; intro H; try reflexivity; contradiction. Qed.
 Theorem dir_entry_result m d : (forall c, d <> DFile c) -> fst (sync_any true m SADir d) = DDir.
 Proof. destruct d as [|t|c|]; cbn; intro H; try reflexivity. exfalso. apply (H c). reflexivity. Qed.
+
+(* ---------- a re-run reports nothing for the entry (C03) ---------- *)
+Theorem link_rerun_is_quiet m s d : let d1 := sync_link m s d in
+  sync_link m s d1 = d1 /\ (link_event m s d1 = EvSkip \/ link_event m s d1 = EvError).
+Proof.
+  cbn zeta. unfold link_event, sync_link, exec_link, plan_link, update_link, handle_symlink, produced.
+  destruct m, d as [|t|c|]; cbn; try (destruct (N.eqb_spec t (l_target s))); try subst t; cbn; destruct (l_cwd s) as [| |c'] eqn:E; cbn;
+    rewrite ?E, ?N.eqb_refl; cbn; try (destruct (N.eqb_spec c c')); try subst c; cbn; rewrite ?E, ?N.eqb_refl; cbn; rewrite ?E, ?N.eqb_refl; cbn; auto;
+    try (destruct (N.eqb t (l_target s)); cbn; auto).
+Qed.
